@@ -760,6 +760,24 @@ Definition wire_primary_raw (wire : bytes) : option (list cbor) :=
   | _ => None
   end.
 
+(** the security-source items of the security blocks exactly as on the wire *)
+Definition wire_sources_raw (wire : bytes) : option (list cbor) :=
+  match decode_all 12 wire with
+  | Some (CArr (_ :: blks)) =>
+      Some (flat_map (fun v =>
+                        match cblock_of v with
+                        | Some c =>
+                            if (cb_type c =? 11) || (cb_type c =? 12) then
+                              match decode_seq asb_fuel (cb_btsd c) with
+                              | Some (_ :: _ :: _ :: src :: _) => [src]
+                              | _ => []
+                              end
+                            else []
+                        | None => []
+                        end) blks)
+  | _ => None
+  end.
+
 (** ** Observations used by the harness *)
 
 Definition sec_blocks (b : bundle) (ty : N) : list cblock :=
@@ -870,10 +888,12 @@ Definition opview_eqb (x y : opview) : N :=
 Fixpoint views_cmp (x y : list opview) : N :=
   match x, y with
   | [], [] => 1
+  | _ :: _, [] => 6
   | a :: x', b :: y' =>
       match opview_eqb a b, views_cmp x' y' with
       | 0, _ | _, 0 => 0
-      | 1, 1 => 1
+      | 1, r => r
+      | _, 6 => 6
       | _, _ => 2
       end
   | _, _ => 0
@@ -886,12 +906,15 @@ Fixpoint blocks_cmp (x y : list (N * list opview)) : N :=
       if n =? n' then
         match views_cmp a b, blocks_cmp x' y' with
         | 0, _ | _, 0 => 0
-        | 1, 1 => 1
+        | 1, r => r
+        | 6, _ | _, 6 => 6
         | _, _ => 2
         end
       else 0
   | _, _ => 0
   end.
+
+Definition is_sec (c : cblock) : bool := (cb_type c =? 11) || (cb_type c =? 12).
 
 (** The model's verdict on an altered bundle, relative to the bundle the
     source produced:
@@ -904,17 +927,23 @@ Fixpoint blocks_cmp (x y : list (N * list opview)) : N :=
           buckets, recipients) differs: outcome is decided by key resolution;
       3 = the altered bundle carries no security block of type 11 / 12 any
           more (nothing is verified);
-      4 = the altered bundle does not parse. *)
+      4 = the altered bundle does not parse;
+      5 = the Abstract Security Block of a security block does not decode;
+      6 = trailing operations of a security block were removed (its target
+          list was cut short), the remaining ones are unchanged: nothing
+          fails, the removed targets are simply no longer protected. *)
 Definition verdict (orig alt : bytes) : N :=
   match parse_bundle orig, parse_bundle alt with
   | Some bo, Some ba =>
-      match filter (fun c => (cb_type c =? 11) || (cb_type c =? 12)) (b_blocks ba) with
+      match filter is_sec (b_blocks ba) with
       | [] => 3
-      | _ =>
-          match bundle_views bo, bundle_views ba with
-          | Some vo, Some va => blocks_cmp vo va
-          | _, _ => 0
-          end
+      | secs =>
+          if existsb (fun c => match asb_dec (cb_btsd c) with None => true | Some _ => false end) secs then 5
+          else
+            match bundle_views bo, bundle_views ba with
+            | Some vo, Some va => blocks_cmp vo va
+            | _, _ => 0
+            end
       end
   | _, None => 4
   | None, _ => 4
